@@ -14,6 +14,7 @@ import (
 	"github.com/mimecast/dtail/internal/lcontext"
 	"github.com/mimecast/dtail/internal/omode"
 	"github.com/mimecast/dtail/internal/regex"
+	"github.com/mimecast/dtail/internal/vhook"
 )
 
 type readCommand struct {
@@ -139,23 +140,33 @@ func (r *readCommand) read(ctx context.Context, ltx lcontext.LContext,
 		limiter = r.server.tailLimiter
 	}
 
+	defer vhook.At("limiter.exit", r.server, path)
 	defer func() {
+		vhook.At("limiter.relbegin", r.server, path)
 		select {
 		case <-limiter:
+			vhook.At("limiter.relend", r.server, path, 1)
 		default:
+			vhook.At("limiter.relend", r.server, path, 0)
 		}
 	}()
 
+	vhook.At("limiter.enter", r.server, path)
 	select {
 	case limiter <- struct{}{}:
+		vhook.At("limiter.acquired", r.server, path)
 	case <-ctx.Done():
+		vhook.At("limiter.cancelled", r.server, path)
 		return
 	default:
+		vhook.At("limiter.wait", r.server, path)
 		dlog.Server.Info("Server limit hit, queueing file", len(limiter), path)
 		select {
 		case limiter <- struct{}{}:
+			vhook.At("limiter.acquired", r.server, path)
 			dlog.Server.Info("Server limit OK now, processing file", len(limiter), path)
 		case <-ctx.Done():
+			vhook.At("limiter.cancelled", r.server, path)
 			return
 		}
 	}
